@@ -13,7 +13,7 @@ RULE = ("every valid base description (networks, circuits, component constructor
         "unaltered), then with exactly one injected fault of each class of the statement at EVERY position (duplicate id at "
         "every pair, foreign reference node, second ground at every insertion point, each sign-checked parameter negative "
         "with three magnitudes, unknown type, unknown waveform, each required field missing), plus the boundary twin (value "
-        "exactly 0, must be accepted), plus unknown element/node queries against every solution kind; a case is distinct by "
+        "exactly 0, must be accepted), plus unknown element/node queries against every solution kind; thorough adds every pair of faults of one class in the loader descriptions; a case is distinct by "
         "(base, fault class, position, value); non-trivial = a case with an injected fault or an unknown-id query")
 ASSUMPTIONS = ["exception types are recorded, not constrained (the statement only says 'rejected with an exception')",
                "sign rules are anchored at the component constructors and loaders, the reference-node rule at Network, ground/duplicate rules at Circuit"]
@@ -28,7 +28,10 @@ GROUPS = ["network", "circuit", "constructors", "net_loader", "cir_loader", "wav
 
 
 def shards(tier):
-    return [("faults:" + g, (g,)) for g in GROUPS]
+    out = [("faults:" + g, (g, tier)) for g in GROUPS]
+    if tier == "thorough":
+        out += [("double faults:" + g, (g + "_double", tier)) for g in ("net_loader", "cir_loader")]
+    return out
 
 
 def run_shard(desc):
@@ -39,7 +42,7 @@ def run_shard(desc):
 
 def replay(case):
     res = new_result()
-    res["only"] = case
+    res["only"] = {k: v for k, v in case.items()}
     globals()["run_" + case["group"]](res)
     return res["violations"]
 
@@ -487,3 +490,58 @@ def vacuity(agg, tier):
         if agg["hits"].get(k, 0) == 0:
             out.append("sub-check %s never fired" % k)
     return out
+
+
+# ------------------------------------------------------------------ thorough: two faults of the same class in one description
+def _single_faults_net(desc):
+    """(class, label, mutate) for every single fault of a network-loader description"""
+    out = []
+    for i, e in enumerate(desc):
+        out.append(("unknown_type", "type@%d" % i, lambda d, i=i: d[i].__setitem__("type", "flux_capacitor")))
+        for key in list(e.keys()):
+            out.append(("missing_field", "%s@%d" % (key, i), lambda d, i=i, key=key: d[i].pop(key, None)))
+    for i, j in itertools.combinations(range(len(desc)), 2):
+        out.append(("duplicate_id", "%d=%d" % (j, i), lambda d, i=i, j=j: d[j].__setitem__("id", d[i]["id"])))
+    return out
+
+
+def run_net_loader_double(res):
+    from CircuitCalculator.Network.loaders import load_network
+    for name, desc in net_descs().items():
+        faults = _single_faults_net(desc)
+        for (c1, l1, m1), (c2, l2, m2) in itertools.combinations(faults, 2):
+            if c1 != c2:
+                continue
+            d = copy.deepcopy(desc)
+            m1(d)
+            m2(d)
+            expect_raises(res, "rejects_two_faults:" + c1, {"group": "net_loader_double", "base": name, "fault": c1, "at": [l1, l2]}, lambda d=d: load_network(d),
+                          "description with two %s faults accepted" % c1)
+
+
+def _single_faults_cir(comps):
+    out = []
+    for i, e in enumerate(comps):
+        out.append(("unknown_type", "type@%d" % i, lambda d, i=i: d[i].__setitem__("type", "flux_capacitor")))
+        for key in ("id", "type", "nodes", "value"):
+            out.append(("missing_field", "%s@%d" % (key, i), lambda d, i=i, key=key: d[i].pop(key, None)))
+        for par in e["value"]:
+            if par in CHECKED:
+                out.append(("negative", "%s@%d" % (par, i), lambda d, i=i, par=par: d[i]["value"].__setitem__(par, -1.0)))
+    for i, j in itertools.combinations(range(len(comps)), 2):
+        out.append(("duplicate_id", "%d=%d" % (j, i), lambda d, i=i, j=j: d[j].__setitem__("id", d[i].get("id", "x"))))
+    return out
+
+
+def run_cir_loader_double(res):
+    from CircuitCalculator.Circuit.dump_load import undictify_circuit
+    for name, comps in cir_docs().items():
+        faults = _single_faults_cir(comps)
+        for (c1, l1, m1), (c2, l2, m2) in itertools.combinations(faults, 2):
+            if c1 != c2:
+                continue
+            d = copy.deepcopy(comps)
+            m1(d)
+            m2(d)
+            expect_raises(res, "rejects_two_faults:" + c1, {"group": "cir_loader_double", "base": name, "fault": c1, "at": [l1, l2]}, lambda d=d: undictify_circuit({"components": d}),
+                          "circuit description with two %s faults accepted" % c1)
